@@ -8,6 +8,7 @@ from fractions import Fraction
 
 sys.path.insert(0, os.path.dirname(os.path.dirname(os.path.abspath(__file__))))
 from verif_static.core import run_check, AnalysisError, REPO  # noqa
+from verif_static.norm import same, same_stmt  # noqa
 from verif_static import model as M, cfg as C  # noqa
 from verif_static.poly import Poly  # noqa
 
@@ -1064,13 +1065,13 @@ def rule_cell_size(chk):
         skip = [x for x in ast.walk(l) if isinstance(x, (ast.Continue, ast.Break, ast.Return))]
         top = [compact(s) for s in l.body]
         ok = not skip and any(s == 'h.update_min_max()' for s in top) and any(s.startswith('_hmax=h.maximum') for s in top) and \
-            any(isinstance(s, ast.If) and compact(s.test) == '_hmax>hmax' for s in l.body)
+            any(isinstance(s, ast.If) and same(s.test, '_hmax>hmax') for s in l.body)
     chk.decide(ok, 'cell-size-covers-every-array', '_compute_cell_size_for_binning', node=fn, file=NB, func='CPUDomainManager._compute_cell_size_for_binning',
                detail_bad='some particle array can be skipped when the maximum smoothing length is gathered (conditional / continue inside the loop over arrays): '
                           'if its h is the largest the cells become smaller than radius_scale*max(h) and the 3x3x3 stencil misses neighbours',
                detail_ok='every array: update_min_max(), fold h.maximum')
     cs = [a for a in ast.walk(fn) if isinstance(a, ast.Assign) and compact(a.targets[0]) == 'cell_size' and 'hmax' in compact(a.value)]
-    chk.decide(bool(cs) and compact(cs[0].value) in ('self.radius_scale*hmax', 'hmax*self.radius_scale'), 'cell-size-covers-every-array', 'cell_size', node=fn, file=NB,
+    chk.decide(bool(cs) and same(cs[0].value, 'self.radius_scale*hmax'), 'cell-size-covers-every-array', 'cell_size', node=fn, file=NB,
                func='CPUDomainManager._compute_cell_size_for_binning', detail_bad='cell size is not radius_scale*hmax', detail_ok='radius_scale*hmax')
     up = M.find_func(dm, 'update')
     g = C.build_cfg(up)
